@@ -214,3 +214,21 @@ func allocExceeded() bool {
 	runtime.ReadMemStats(&ms)
 	return ms.TotalAlloc-allocBase > uint64(allocLimit)*256+(1<<20)
 }
+
+// AssumeRange constrains every byte of b to lo..hi (an assumption that is always satisfiable).
+func AssumeRange(b []byte, lo, hi byte) {
+	for _, x := range b {
+		if x < lo || x > hi {
+			panic(assumeFailed{})
+		}
+	}
+}
+
+// Digits returns a string of n arbitrary decimal digit characters.
+func Digits(name string, n int) string {
+	s, _ := get(name)
+	for len(s) < n {
+		s = "0" + s
+	}
+	return s[:n]
+}
